@@ -52,7 +52,10 @@ def gen(rng, i, tier):
         # a cutoff that leaves exactly one stored r point in [0, cutoff] (the first grid point itself, or anywhere below the second)
         cutoff = rmin if rng.random() < 0.4 else rmin + float(rng.uniform(0.05, 0.9)) * rdelta
         cutkind = "one-point"
-    return dict(qzero=qzero, cutkind=cutkind, q=tolist(q), s=tolist(s), rsf=int(rng.integers(0, 3)), rho=float(10 ** rng.uniform(-2, -0.5)), bcoh=float(rng.uniform(0.5, 6)),
+    rsf = int(rng.integers(0, 3))
+    # a null-scattering sample (<b_coh>^2 exactly 0) in one case out of fifteen, for the functions that do not divide by it
+    bcoh = 0.0 if (rsf != 2 and rng.random() < 0.07) else float(rng.uniform(0.5, 6))
+    return dict(qzero=qzero, cutkind=cutkind, q=tolist(q), s=tolist(s), rsf=rsf, rho=float(10 ** rng.uniform(-2, -0.5)), bcoh=bcoh,
                 lowq=bool(rng.random() < 0.4), cutoff=cutoff, rmin=rmin, rmax=float(rng.uniform(3, 6)),
                 rdelta=rdelta, ops=ops, nops=nops, rho2=float(10 ** rng.uniform(-2, -0.5)), bcoh2=float(rng.uniform(0.5, 6)),
                 retuned=any(o >= 5 for o in ops), rmax2=float(rng.uniform(3, 6)), rdelta2=float(rng.choice([0.1, 0.2, 0.25, 0.05])),
